@@ -4,8 +4,8 @@ import (
 	"fmt"
 	"go/ast"
 	"go/constant"
-	"go/token"
 	"go/types"
+	"golang.org/x/tools/go/packages"
 	"sort"
 	"strings"
 
@@ -117,6 +117,16 @@ func (m *eventModel) eventConstOf(v AV) (string, bool) {
 		if c, ok := a.(*ssa.Const); ok && c.Type() == types.Type(m.eventType) && c.Value != nil {
 			if name, ok := m.byValue[c.Int64()]; ok {
 				return name, true
+			}
+		}
+	}
+	// the constant reached the constructor through parameters of wrappers: use the argument values of the path
+	for i, a := range operands {
+		if a.Type() == types.Type(m.eventType) && i < len(v.CallArgs) && v.CallArgs[i].Kind == avConst && v.CallArgs[i].Const != nil {
+			if iv, ok := constant.Int64Val(v.CallArgs[i].Const); ok {
+				if name, ok := m.byValue[iv]; ok {
+					return name, true
+				}
 			}
 		}
 	}
@@ -446,7 +456,9 @@ func checkC11(c *Ctx) {
 	c11Milestones(c, m)
 }
 
-// c11Milestones checks the consumer side (T4) on the syntax of every function that ranges over an event channel.
+// c11Milestones checks the consumer side (T4): every function that ranges over an event channel is evaluated once per
+// EventType constant (E-sym, case split on <event>.EventType), so a switch, an if-chain and a loop over a table of phases
+// are all judged by what they do for each event.
 func c11Milestones(c *Ctx, m *eventModel) {
 	r, p := c.R, c.P
 	found := 0
@@ -458,110 +470,86 @@ func c11Milestones(c *Ctx, m *eventModel) {
 				if !ok || fd.Body == nil {
 					continue
 				}
+				var loop *ast.RangeStmt
 				ast.Inspect(fd.Body, func(n ast.Node) bool {
-					rs, ok := n.(*ast.RangeStmt)
-					if !ok {
-						return true
-					}
-					tv, ok := info.Types[rs.X]
-					if !ok || !m.isEventChan(tv.Type) {
-						return true
-					}
-					// find the switch over the event type inside the loop
-					var sw *ast.SwitchStmt
-					ast.Inspect(rs.Body, func(k ast.Node) bool {
-						if s, ok := k.(*ast.SwitchStmt); ok && sw == nil {
-							sw = s
+					if rs, ok := n.(*ast.RangeStmt); ok && loop == nil {
+						if tv, ok := info.Types[rs.X]; ok && m.isEventChan(tv.Type) {
+							loop = rs
 						}
-						return sw == nil
-					})
-					if sw == nil {
-						return true
 					}
-					found++
-					key := relOf(pk) + "." + fd.Name.Name
-					c11CheckSwitch(c, m, pk.TypesInfo, key, fd, rs, sw)
 					return true
 				})
+				if loop == nil {
+					continue
+				}
+				// does the loop look at the event type at all? (a consumer that only forwards events is not the milestone builder)
+				looks := false
+				ast.Inspect(loop.Body, func(n ast.Node) bool {
+					if sel, ok := n.(*ast.SelectorExpr); ok {
+						if tv, ok := info.Types[sel]; ok && tv.Type == types.Type(m.eventType) {
+							looks = true
+						}
+					}
+					return true
+				})
+				if !looks {
+					continue
+				}
+				found++
+				key := relOf(pk) + "." + fd.Name.Name
+				c11CheckConsumer(c, m, pk, key, fd, loop)
 			}
 		}
 	}
 	if found == 0 {
-		r.Unknown("C11.T4", "milestones", "", "no function ranging over an event channel with a switch on the event type was found")
+		r.Unknown("C11.T4", "milestones", "", "no function ranging over an event channel and inspecting the event type was found")
 	}
-	_ = p
 }
 
-func c11CheckSwitch(c *Ctx, m *eventModel, info *types.Info, key string, fd *ast.FuncDecl, rs *ast.RangeStmt, sw *ast.SwitchStmt) {
+func c11CheckConsumer(c *Ctx, m *eventModel, pk *packages.Package, key string, fd *ast.FuncDecl, loop *ast.RangeStmt) {
 	r, p := c.R, c.P
-	constName := func(e ast.Expr) string {
-		var id *ast.Ident
-		switch x := ast.Unparen(e).(type) {
-		case *ast.Ident:
-			id = x
-		case *ast.SelectorExpr:
-			id = x.Sel
-		}
-		if id == nil {
-			return ""
-		}
-		if cst, ok := info.Uses[id].(*types.Const); ok && cst.Type() == types.Type(m.eventType) {
-			return cst.Name()
+	info := pk.TypesInfo
+	type effect struct {
+		storedKeys []string // names of the EventType constants under which the event was stored
+		sends      []*Sym
+	}
+	byName := map[string]int64{}
+	for v, n := range m.byValue {
+		byName[n] = v
+	}
+	constNameOf := func(s *Sym) string {
+		if v, ok := s.ConstInt(); ok {
+			return m.byValue[v]
 		}
 		return ""
 	}
-	handledStart := map[string]bool{}
-	doneStage := map[string]string{} // Done const -> stage whose stored start is used
-	doneSends := map[string]int{}
-	for _, cl := range sw.Body.List {
-		cc := cl.(*ast.CaseClause)
-		var names []string
-		for _, e := range cc.List {
-			if n := constName(e); n != "" {
-				names = append(names, n)
+	run := func(ev string) effect {
+		var eff effect
+		proto := &symWalker{}
+		proto.AssumeFn = func(s *Sym) *Sym {
+			if s.K == symField && s.Type != nil && s.Type == types.Type(m.eventType) && s.X != nil && s.X.K == symElem {
+				return &Sym{K: symConst, C: constant.MakeInt64(byName[ev]), Type: m.eventType}
 			}
+			if s.K == symField && s.Name == "EventType" && s.X != nil && s.X.K == symElem {
+				return &Sym{K: symConst, C: constant.MakeInt64(byName[ev]), Type: m.eventType}
+			}
+			return nil
 		}
-		// what does the body do?
-		stores := false
-		sends := 0
-		var usedStarts []string
-		for _, st := range cc.Body {
-			ast.Inspect(st, func(n ast.Node) bool {
-				switch x := n.(type) {
-				case *ast.AssignStmt:
-					for _, lhs := range x.Lhs {
-						if ix, ok := lhs.(*ast.IndexExpr); ok {
-							if mt, ok := info.Types[ix.X].Type.Underlying().(*types.Map); ok && mt.Key() == types.Type(m.eventType) {
-								stores = true
-							}
-						}
-					}
-				case *ast.SendStmt:
-					sends++
-				case *ast.IndexExpr:
-					if mt, ok := info.Types[x.X].Type.Underlying().(*types.Map); ok && mt.Key() == types.Type(m.eventType) {
-						if n := constName(x.Index); n != "" {
-							usedStarts = append(usedStarts, n)
-						}
-					}
-				}
-				return true
-			})
-		}
-		for _, n := range names {
-			if m.isStart[n] {
-				if stores {
-					handledStart[n] = true
-				}
+		proto.OnStore = func(w *symWalker, at ast.Node, target *Sym, k *Sym, val *Sym) {
+			if k == nil || val == nil || !(val.K == symElem || (val.K == symStruct && val.Name == "copy")) {
+				return
+			}
+			if n := constNameOf(k); n != "" {
+				eff.storedKeys = append(eff.storedKeys, n)
 			} else {
-				doneSends[n] = sends
-				if len(usedStarts) == 1 {
-					doneStage[n] = usedStarts[0]
-				} else {
-					doneStage[n] = strings.Join(usedStarts, ",")
-				}
+				eff.storedKeys = append(eff.storedKeys, "?"+k.String())
 			}
 		}
+		proto.OnSend = func(w *symWalker, st *ast.SendStmt, ch *Sym, val *Sym) {
+			eff.sends = append(eff.sends, val)
+		}
+		p.SymWalk(pk, &ast.FuncDecl{Name: fd.Name, Type: fd.Type, Recv: fd.Recv, Body: &ast.BlockStmt{List: []ast.Stmt{loop}}}, proto, nil)
+		return eff
 	}
 	stages := sortedKeys(m.pairs)
 	for _, st := range stages {
@@ -570,15 +558,41 @@ func c11CheckSwitch(c *Ctx, m *eventModel, info *types.Info, key string, fd *ast
 			continue
 		}
 		k := key + "#" + st
+		es, ed := run(pr[0]), run(pr[1])
+		// Start: stored under its own constant, nothing sent
+		startOK := len(es.storedKeys) == 1 && es.storedKeys[0] == pr[0] && len(es.sends) == 0
+		// Done: exactly one milestone, built from the start stored under the stage's Start constant, labelled with the stage
+		usedStart, label := "", ""
+		if len(ed.sends) == 1 {
+			ed.sends[0].Walk(func(s *Sym) {
+				if s.K == symIndex {
+					if n := constNameOf(s.Y); n != "" {
+						if usedStart == "" {
+							usedStart = n
+						} else if usedStart != n {
+							usedStart += "," + n
+						}
+					}
+				}
+				if lit, ok := s.ConstString(); ok && label == "" {
+					label = lit
+				}
+			})
+		}
 		switch {
-		case !handledStart[pr[0]]:
-			r.Bad("C11.T4", k, p.Pos(sw.Pos()), fmt.Sprintf("%s is not stored by the milestone switch: no milestone (or a zero start time) for stage %s", pr[0], st))
-		case doneSends[pr[1]] != 1:
-			r.Bad("C11.T4", k, p.Pos(sw.Pos()), fmt.Sprintf("the case for %s sends %d milestones, exactly one is required", pr[1], doneSends[pr[1]]))
-		case doneStage[pr[1]] != pr[0]:
-			r.Bad("C11.T4", k, p.Pos(sw.Pos()), fmt.Sprintf("the milestone for %s is built from the stored event %q instead of %s", pr[1], doneStage[pr[1]], pr[0]))
+		case !startOK:
+			r.Bad("C11.T4", k, p.Pos(loop.Pos()), fmt.Sprintf("on %s the consumer stores the event under %v and sends %d value(s); it must store it under %s and send nothing: no milestone (or a zero start time) for stage %s", pr[0], es.storedKeys, len(es.sends), pr[0], st))
+		case len(ed.sends) != 1:
+			r.Bad("C11.T4", k, p.Pos(loop.Pos()), fmt.Sprintf("on %s the consumer sends %d milestones, exactly one is required", pr[1], len(ed.sends)))
+		case len(ed.storedKeys) != 0:
+			r.Bad("C11.T4", k, p.Pos(loop.Pos()), fmt.Sprintf("on %s the consumer also stores the event under %v", pr[1], ed.storedKeys))
+		case usedStart != pr[0]:
+			r.Bad("C11.T4", k, p.Pos(loop.Pos()), fmt.Sprintf("the milestone for %s is built from the stored event %q instead of %s", pr[1], usedStart, pr[0]))
 		default:
-			r.OK("C11.T4", k, p.Pos(sw.Pos()), fmt.Sprintf("%s stored; %s sends one milestone built from it", pr[0], pr[1]))
+			r.OK("C11.T4", k, p.Pos(loop.Pos()), fmt.Sprintf("%s stored; %s sends one milestone built from it", pr[0], pr[1]))
+		}
+		if label != "" {
+			r.Check(label == st, "C11.T4", key+"#label:"+st, p.Pos(loop.Pos()), "the milestone of "+pr[1]+" is labelled "+label, fmt.Sprintf("the milestone built for %s is labelled %q", pr[1], label))
 		}
 	}
 	// the milestone channel is closed exactly once, after the loop
@@ -590,41 +604,11 @@ func c11CheckSwitch(c *Ctx, m *eventModel, info *types.Info, key string, fd *ast
 		}
 		if id, ok := call.Fun.(*ast.Ident); ok && id.Name == "close" && info.Uses[id] == types.Universe.Lookup("close") {
 			closes++
-			if call.Pos() > rs.Pos() && call.End() < rs.End() {
+			if call.Pos() > loop.Pos() && call.End() < loop.End() {
 				inLoop++
 			}
 		}
 		return true
 	})
 	r.Check(closes == 1 && inLoop == 0, "C11.T4", key+"#close", p.Pos(fd.Pos()), "the milestone channel is closed once, after the event loop", fmt.Sprintf("close is called %d time(s), %d inside the event loop", closes, inLoop))
-	// the operation label agrees with the stage: generateMilestone(<Op>, ...) where Op const name == stage
-	for _, cl := range sw.Body.List {
-		cc := cl.(*ast.CaseClause)
-		for _, e := range cc.List {
-			n := constName(e)
-			if n == "" || m.isStart[n] {
-				continue
-			}
-			st := m.stageOf[n]
-			label := ""
-			for _, s := range cc.Body {
-				ast.Inspect(s, func(k ast.Node) bool {
-					if call, ok := k.(*ast.CallExpr); ok {
-						for _, a := range call.Args {
-							if id, ok := ast.Unparen(a).(*ast.Ident); ok {
-								if cst, ok := info.Uses[id].(*types.Const); ok && cst.Val().Kind() == constant.String {
-									label = constant.StringVal(cst.Val())
-								}
-							}
-						}
-					}
-					return true
-				})
-			}
-			if label != "" {
-				r.Check(label == st, "C11.T4", key+"#label:"+st, p.Pos(cc.Pos()), "the milestone of "+n+" is labelled "+label, fmt.Sprintf("the milestone built for %s is labelled %q", n, label))
-			}
-		}
-	}
-	_ = token.NoPos
 }
